@@ -43,6 +43,8 @@ func kindOf(tx interfaces.Transaction) string {
 		return "rv"
 	case ctypes.CRCProposalTracking:
 		return "tk"
+	case ctypes.SideChainPow:
+		return "sp"
 	}
 	return "ot"
 }
@@ -95,6 +97,9 @@ func (n *Node) DescribeTx(tx interfaces.Transaction) string {
 		for _, h := range pl.SideChainTransactionHashes {
 			ph = append(ph, ID(h))
 		}
+	case *payload.SideChainPow:
+		ph = append(ph, ID(pl.SideBlockHash), ID(pl.SideGenesisHash))
+		pd = append(pd, hexOrDash(pl.Signature))
 	case *payload.CRCProposal:
 		ph = append(ph, ID(pl.DraftHash))
 		pd = append(pd, hexOrDash(pl.DraftData))
